@@ -26,6 +26,17 @@ FunctionOk(e) ==
            /\ \A j \in 1..Len(ann) :
                  x.scores[ann[j]] = e.qbias + SumSeq([y \in 1..Len(x.feats[j]) |-> x.feats[j][y].cnt * QOf(e.q, x.feats[j][y].f)])
 
+\* the learned function is the one the learner produced, not its negation: the learner starts from the zero function and only
+\* improves its objective, so unless it learned nothing at least one TRAINING boundary lies on the side of 0 its annotation names
+\* (an all-wrong function has a larger loss than the zero function).  Guards against picking the wrong class column.
+OrientationOk(e) ==
+  LET tr == {i \in 1..Len(e.evals) : e.evals[i].is_train}
+      learned == e.qbias # 0 \/ \E j \in 1..Len(e.q) : e.q[j].q # 0
+  IN (learned /\ tr # {}) =>
+       \E i \in tr : \E b \in 1..Len(e.evals[i].labels) :
+          \/ e.evals[i].labels[b] = LW /\ e.evals[i].scores[b] > 0
+          \/ e.evals[i].labels[b] = LN /\ e.evals[i].scores[b] < 0
+
 \* ---- C11: the pipeline life-cycle.  stages = <<[st, res]>> in execution order.
 \* Allowed behaviours: new -> err | new -> ok, train -> err | new -> ok, train -> ok and then every later stage ok.
 PipelineOk(e) ==
@@ -76,7 +87,7 @@ TagEvalOk(e) ==
                           tok.cands[c][z].s = TagTrainedScore(e.cfg, e.tagq, tok.surf, c, z, x.text, <<tok.s, tok.e>>))
 
 Accept(e) ==
-  CASE e.ev = "function" -> FunctionOk(e)
+  CASE e.ev = "function" -> FunctionOk(e) /\ OrientationOk(e)
     [] e.ev = "pipeline" -> PipelineOk(e)
     [] e.ev = "inventory" -> InventoryOk(e) /\ TagEvalOk(e)
     [] OTHER -> FALSE
